@@ -953,6 +953,7 @@ func (vfs *MemFS) openFile(name string, flag int, perm fs.FileMode) (file avfs.F
 
 		if om&avfs.OpenTruncate != 0 {
 			c.truncate(0)
+			c.mtime = time.Now().UnixNano()
 		}
 
 	case *dirNode:
